@@ -399,7 +399,7 @@ class Checker:
             if o != e:
                 lab = q_label(k, self.n, self.nnames, self.paths)
                 qn = lab.split(": ")[1].split("(")[0]
-                key = "C09:ancestry-stale-parent" if qn == "get_ancestry" else f"C09:query:{qn}"
+                key = f"C09:query:{qn}"
                 ctx.fail(key, f"{lab} answers {o}; the ordered tree implies {e}",
                          {"kind": "impl-vs-statement", "names": [NAME_STR[x] for x in self.names], "history_from_all_detached": history,
                           "state": state, "query": lab, "observed": o, "expected": e})
@@ -423,6 +423,9 @@ def explore(ctx, chk, depth, idxs, state_cap=None):
     frontier = [init]
     table = []
     for d in range(depth):
+        if not frontier:
+            ctx.note(f"names {names}: exploration closed at depth {d}: every reachable state ({len(hist)}) has been expanded")
+            break
         nxt = []
         for st in frontier:
             trans = []
@@ -549,10 +552,10 @@ def run(ctx):
     nnames = 2
     paths_small = [[], [0], [1], [0, 0], [0, 1], [1, 0], [1, 1]]
     paths_big = paths_small + [list(p) for p in itertools.product(range(2), repeat=3)] + [[0, 1, 0, 1]]
-    depth = 4 if thorough else 3
+    depth = 9 if thorough else 3      # thorough: until no new state appears (closure is reached at depth 6-7)
     ctx.extra["rule"] = ("exhaustive: every operation (add_child with index in %s, remove_child, replace_child x delete_old, shift x LEFT/RIGHT x sib, "
                          "remove_children; proviso-violating attachments skipped, every failing operand combination kept) applied to every distinct "
-                         "state reachable in < %d edits from 4 detached nodes, for each name assignment; all queries (2 names, %d paths, every "
+                         "state reachable in < %d edits from 4 detached nodes (thorough: until no new state appears), for each name assignment; all queries (2 names, %d paths, every "
                          "node / node pair) on every state reached; plus random histories of length 40-60 over 10-12 nodes and directed regression "
                          "histories; non-trivial = distinct (name assignment, state, operation)") % (EXH_IDX, depth, len(paths_small))
     jobs = []        # (name, text, describe(j) -> replay fragment)
@@ -683,3 +686,24 @@ def report_corr(ctx, nm, d, k, bad):
         ctx.fail("corr:C09:queries", f"model and implementation disagree on a query ({nm}, state index {bad[0]})",
                  {"kind": "broken-correspondence", "theorem": "C09_queries (model/implementation correspondence)", "file": nm,
                   "state_index": bad[0]}, concrete=False)
+
+
+def replay(ctx, data):
+    """Re-run a recorded history against the implementation with the same statement checks."""
+    r = data.get("replay", data)
+    hist = r.get("history_from_all_detached") or r.get("history") or r.get("history_to_state")
+    names = r.get("names")
+    if hist is None or names is None:
+        print("nothing to replay against the implementation:", r.get("kind"))
+        return
+    names = [NAME_STR.index(x) if isinstance(x, str) else x for x in names]
+    ops = [tuple(o) for o in hist]
+    if r.get("op") is not None and (not ops or ops[-1] != tuple(r["op"])) and "history_to_state" in r:
+        ops.append(tuple(r["op"]))
+    paths = [[], [0], [1], [0, 0], [0, 1], [1, 0], [1, 1], [0, 0, 0], [0, 1, 0], [1, 0, 1], [0, 1, 0, 1]]
+    chk = Checker(ctx, names, 2, paths)
+    st = initial_state(len(names))
+    for k, op in enumerate(ops):
+        st, ret = chk.step(st, op, [list(o) for o in ops[:k + 1]])
+        print("step", k, op, "->", ret, "children", [list(x) for x in st[0]], "parents", list(st[1]))
+    chk.queries(st, [list(o) for o in ops])
